@@ -33,6 +33,9 @@ type Config struct {
 
 	// Ambiguity switches (the property is silent; the comparator may try both settings).
 	PipeGetlineBumpsNR bool
+	// IntDropsNegZero: int(x) for -1 < x <= -0 is +0 instead of -0 (the property says "truncates
+	// toward zero" and nothing about the sign of a zero; both are accepted by the callers)
+	IntDropsNegZero bool
 }
 
 // Result is what a reference run observed.
